@@ -422,9 +422,10 @@ class Gen:
     """Type-directed generator of mostly well-typed, well-scoped core programs."""
 
     def __init__(self, rng, max_depth=5, p_bad_type=0.05, allow_std=True, allow_error=True, allow_tailstrict=False,
-                 new_std=True):
+                 new_std=True, pure_std=True):
         self.rng = rng
         self.new_std = new_std
+        self.pure_std = pure_std
         self.max_depth = max_depth
         self.p_bad = p_bad_type
         self.allow_std = allow_std
@@ -532,6 +533,8 @@ class Gen:
         r = self.rng
         if self.allow_std and self.new_std and r.random() < 0.06:
             return self.gen_num_std(env, d, inobj)
+        if self.allow_std and self.pure_std and r.random() < 0.05:
+            return self.gen_pure('num', env, d, inobj)
         x = r.random()
         if x < 0.25:
             return ('num', float(r.choice(NUMS)))
@@ -550,6 +553,8 @@ class Gen:
         r = self.rng
         if self.allow_std and self.new_std and r.random() < 0.07:
             return self.gen_str_std(env, d, inobj)
+        if self.allow_std and self.pure_std and r.random() < 0.08:
+            return self.gen_pure('str', env, d, inobj)
         x = r.random()
         if x < 0.3:
             return ('str', r.choice(STRS))
@@ -593,6 +598,8 @@ class Gen:
         r = self.rng
         if self.allow_std and self.new_std and r.random() < 0.09:
             return self.gen_bool_std(env, d, inobj)
+        if self.allow_std and self.pure_std and r.random() < 0.05:
+            return self.gen_pure('bool', env, d, inobj)
         x = r.random()
         if x < 0.15:
             return (r.choice(['true', 'false']),)
@@ -616,6 +623,8 @@ class Gen:
         r = self.rng
         if self.allow_std and self.new_std and d > 0 and r.random() < 0.13:
             return self.gen_arr_std(env, d, inobj, elem)
+        if self.allow_std and self.pure_std and d > 0 and elem in (None, 'num', 'str') and r.random() < 0.04:
+            return self.gen_pure('arrnum' if elem == 'num' else ('arrstr' if elem == 'str' else r.choice(['arrnum', 'arrstr'])), env, d, inobj)
         x = r.random()
         et = elem or r.choice(['num', 'str', 'any', 'num', 'obj'])
         if x < 0.45 or d <= 0:
@@ -853,6 +862,30 @@ class Gen:
         t = r.choice(['num', 'str', 'arr', 'obj', 'bool', 'null', 'any', 'func1'] if k == 'primitiveEquals' else ['num', 'str', 'arr', 'obj', 'any', 'arr'])
         return ('std', k, [self.gen(t, env, d - 1, inobj), self.gen(t, env, d - 1, inobj)])
 
+    # ---- pure builtins (strings, numbers, codecs; see PURE_SIGS) ----
+
+    def pure_arg(self, kind, env, d, inobj):
+        """An argument of the given kind: mostly a literal from the pool of the kind (boundaries included), sometimes a
+        generated expression of the right type; wrong types come from `gen` itself (p_bad_type) and from here."""
+        r = self.rng
+        ty = PURE_KIND_TYPE[kind]
+        x = r.random()
+        if x < 0.07:
+            return self.gen(r.choice(['num', 'str', 'bool', 'arr', 'obj', 'null', 'func1']), env, d - 1, inobj)
+        if x < 0.55:
+            return pure_pool(r, kind)
+        return self.gen(ty, env, d - 1, inobj)
+
+    def gen_pure(self, res, env, d, inobj):
+        r = self.rng
+        name = r.choice(PURE_BY_RESULT[res])
+        if name == 'format':
+            f, v = fmt_case(r)
+            if r.random() < 0.15:
+                v = self.gen(r.choice(['arr', 'obj', 'num', 'str']), env, d - 1, inobj)
+            return ('binary', 'rem', f, v) if r.random() < 0.5 else ('std', 'format', [f, v])
+        return ('std', name, [self.pure_arg(k, env, d, inobj) for k in PURE_SIGS[name][0]])
+
     def gen_func1(self, env, d, inobj):
         env2 = dict(env)
         env2['x'] = 'any'
@@ -1071,6 +1104,281 @@ def late_binding_cases(rng, n):
     return out
 
 
+# --------------------------------------------------------------------------------------
+# The pure builtins (strings, numbers, codecs) of the evaluator model: lean/RsjModel/EvalPure.lean
+# --------------------------------------------------------------------------------------
+
+# name -> (argument kinds, result type)
+PURE_SIGS = {
+    'substr': (['s', 'idx', 'idx'], 'str'), 'findSubstr': (['pat', 's'], 'arrnum'), 'startsWith': (['s', 'pat'], 'bool'),
+    'endsWith': (['s', 'pat'], 'bool'), 'split': (['s', 'pat'], 'arrstr'), 'splitLimit': (['s', 'pat', 'maxsplit'], 'arrstr'),
+    'splitLimitR': (['s', 'pat', 'maxsplit'], 'arrstr'), 'strReplace': (['s', 'pat', 's'], 'str'),
+    'stripChars': (['s', 'pat'], 'str'), 'lstripChars': (['s', 'pat'], 'str'), 'rstripChars': (['s', 'pat'], 'str'),
+    'trim': (['ws'], 'str'), 'asciiUpper': (['s'], 'str'), 'asciiLower': (['s'], 'str'), 'stringChars': (['s'], 'arrstr'),
+    'codepoint': (['chr'], 'num'), 'char': (['cp'], 'str'), 'equalsIgnoreCase': (['s', 's'], 'bool'),
+    'floor': (['n'], 'num'), 'ceil': (['n'], 'num'), 'sqrt': (['n'], 'num'), 'isEven': (['n'], 'bool'), 'isOdd': (['n'], 'bool'),
+    'isInteger': (['n'], 'bool'), 'isDecimal': (['n'], 'bool'), 'modulo': (['n', 'n'], 'num'), 'exponent': (['n'], 'num'),
+    'mantissa': (['n'], 'num'), 'deg2rad': (['n'], 'num'), 'rad2deg': (['n'], 'num'),
+    'pow': (['n', 'n'], 'num'), 'exp': (['n'], 'num'), 'log': (['n'], 'num'), 'log2': (['n'], 'num'), 'log10': (['n'], 'num'),
+    'sin': (['n'], 'num'), 'cos': (['n'], 'num'), 'tan': (['n'], 'num'), 'asin': (['n'], 'num'), 'acos': (['n'], 'num'),
+    'atan': (['n'], 'num'), 'atan2': (['n', 'n'], 'num'), 'hypot': (['n', 'n'], 'num'),
+    'parseInt': (['dec'], 'num'), 'parseOctal': (['oct'], 'num'), 'parseHex': (['hex'], 'num'),
+    'base64': (['b64in'], 'str'), 'base64Decode': (['b64'], 'str'), 'base64DecodeBytes': (['b64'], 'arrnum'),
+    'encodeUTF8': (['s'], 'arrnum'), 'decodeUTF8': (['bytes'], 'str'),
+    'escapeStringJson': (['esc'], 'str'), 'escapeStringPython': (['esc'], 'str'), 'escapeStringBash': (['esc'], 'str'),
+    'escapeStringDollars': (['esc'], 'str'), 'escapeStringXML': (['esc'], 'str'),
+    'format': (['fmt'], 'str'),     # one generated pair: the format string and its values (see fmt_case)
+}
+# the libm functions: only the argument checks are modelled (the model answers `unsupported` for the value)
+PURE_LIBM = {'pow', 'exp', 'log', 'log2', 'log10', 'sin', 'cos', 'tan', 'asin', 'acos', 'atan', 'atan2', 'hypot'}
+PURE_STD = set(PURE_SIGS)
+PURE_KIND_TYPE = {'s': 'str', 'pat': 'str', 'ws': 'str', 'chr': 'str', 'dec': 'str', 'oct': 'str', 'hex': 'str', 'b64': 'str',
+                  'idx': 'num', 'maxsplit': 'num', 'cp': 'num', 'n': 'num', 'b64in': 'str', 'bytes': 'arr', 'esc': 'any',
+                  'fmt': 'str'}
+PURE_BY_RESULT = {}
+for _n, (_k, _r) in PURE_SIGS.items():
+    # the libm functions once, the others three times: the generated programs mostly use what the model computes
+    PURE_BY_RESULT.setdefault(_r, []).extend([_n] if _n in PURE_LIBM else [_n, _n, _n])
+
+PURE_STRS = ['', 'a', 'b', 'ab', 'abc', 'aXbXc', 'aaa', 'aaaa', 'abcabc', 'a,b,,c', ',a,', 'x y', 'é', 'éa', 'aé', '日本', '日本語日本',
+             '😀', 'a😀b😀', 'héllo wörld', 'Hello', 'hELLO', 'ÀÉ', 'k1', 'a"b', "it's", '<a href="x">&</a>', '$x$$', 'line\n', 'ǅ',
+             'xxxxxxxxxxxxxxxxxxxx']
+PURE_PATS = ['', 'a', 'b', 'ab', 'X', ',', 'aa', 'é', '日', '😀', ' ', 'ba', 'abc', 'l', 'xyz', 'aé']
+PURE_WS = ['', ' a ', '\t\n x \r\n', '\u0085a\u00a0', '\u000ca\u000c', '\u2003a\u2003', '  ', 'a b', ' é ', '\u00a0\u00a0', 'a']
+PURE_CHRS = ['a', 'é', '日', '😀', '', 'ab', '\u0000', '\uffff', 'A', ' ']
+PURE_IDX = [0, 1, 2, 3, 5, 100, 1e10, 18446744073709551616.0, 1e300, -1, -2, 0.5, 1.5, -0.5, 'negzero', 2.000001, 4294967296.0, 9007199254740993.0]
+PURE_MAXSPLIT = [0, 1, 2, 3, 10, -1, -2, 'negzero', 1.5, -0.5, -1.5, 1e19, 18446744073709551615.0, 1e300, 100]
+PURE_CPS = [65, 97, 233, 0x65E5, 0x1F600, 0, 0xD7FF, 0xD800, 0xDFFF, 0xE000, 0x10FFFF, 0x110000, -1, 65.9, -0.5, 'negzero', 4294967296.0, 4294967295.0, 1e300, 127, 128, 255, 256]
+PURE_NS = [0, 1, 2, 3, 4, 7, 10, 0.5, 1.5, 2.5, -1, -2, -3, -0.5, -1.5, 'negzero', 1e15, 1e16, 9007199254740991.0, 9007199254740992.0, 9007199254740993.0,
+           1e308, -1e308, 5e-324, 2.2250738585072014e-308, 1e-310, 0.1, 0.75, 100, 180, 360, 45, 3.141592653589793, 57.29577951308232, 1e300, 4.5, -4.5,
+           16, 17, 2 ** 52 + 1.0, 0.09375, 20]
+PURE_DEC = ['0', '1', '123', '-123', '-0', '007', '', '-', '+1', '12a', 'a', '1e3', '1.5', ' 1', '1 ', '--1', '９', '१२', '9' * 30,
+            '123456789012345678901234567890', '9007199254740993', '-9007199254740993', '1' + '0' * 308, '1' + '0' * 309, '-1' + '0' * 400, '1_000']
+PURE_OCT = ['0', '7', '10', '777', '0777', '', '8', '-1', '+1', '7a', ' 7', '1' * 43, '7' * 43, '7' * 44, '1' + '0' * 60, '1' + '0' * 341, '1' + '0' * 342,
+            '0' * 50 + '17', '४', '1' + '0' * 42 + '1', '4' + '0' * 17 + '1']
+PURE_HEX = ['0', 'f', 'F', 'ff', 'FF', 'fF', 'deadBEEF', '', 'g', '0x1', '-1', ' f', 'f' * 32, 'f' * 33, '1' + '0' * 255, '1' + '0' * 256, '1' + '0' * 300,
+            '0' * 40 + 'a', 'ａ', '20000000000001', '20000000000001' + '0' * 20 + '1', '8' + '0' * 31 + '1']
+PURE_B64 = ['', 'YQ==', 'YWI=', 'YWJj', 'aGVsbG8gd29ybGQ=', '/w==', '/+8=', 'AAEC', '+/+/', 'abc', 'a', 'ab!d', '====', 'a===', 'YQ=a', 'Y=Q=', 'é===', 'YQ==YQ==',
+             'YWJj\n', 'YWJjYQ==', ' YQ=', '6Q==', 'w6k=', '8J+YgA==']
+PURE_B64_STR = ['', 'a', 'ab', 'abc', 'abcd', 'hello world', 'é', 'ÿ', '\u0000\u0001\u0002', '日', 'a日', '😀', 'aĀ', '\u00ff\u0100', '~~~', '\u00fb\u00ff\u00be']
+
+
+def pure_num(v):
+    """a number of the pools: `'negzero'` is `-0`"""
+    return ('unary', 'minus', ('num', 0.0)) if v == 'negzero' else num_lit(v)
+
+
+def pure_bytes(r):
+    """an array for std.decodeUTF8 / std.base64: valid UTF-8, truncated / overlong / surrogate sequences, values that are
+    not bytes, items that are not numbers"""
+    k = r.random()
+    if k < 0.35:
+        bs = list(r.choice(['', 'a', 'abc', 'é', '日本', '😀', 'aé日😀b', 'hello']).encode('utf-8'))
+    elif k < 0.6:
+        bs = r.choice([[0xC3], [0xC3, 0x28], [0xE6, 0x97], [0xE6, 0x97, 0x41], [0xF0, 0x9F, 0x98], [0xF0, 0x9F, 0x98, 0x80, 0x80], [0x80], [0xBF, 0x41],
+                       [0xC0, 0x80], [0xC1, 0xBF], [0xE0, 0x80, 0x80], [0xE0, 0x9F, 0xBF], [0xED, 0xA0, 0x80], [0xED, 0x9F, 0xBF], [0xF0, 0x80, 0x80, 0x80],
+                       [0xF4, 0x8F, 0xBF, 0xBF], [0xF4, 0x90, 0x80, 0x80], [0xF5, 0x80, 0x80, 0x80], [0xFF, 0xFE], [0x41, 0xC3, 0xA9, 0xC3], [0, 255, 128, 127],
+                       [0xF0, 0x9F, 0x41], [0xE6, 0xC3, 0xA9]])
+    else:
+        bs = [r.randrange(256) for _ in range(r.randrange(0, 8))]
+    items = [('num', float(b)) for b in bs]
+    j = r.random()
+    if j < 0.3 and True:
+        bad = r.choice([('num', 256.0), num_lit(-1), ('num', 1.5), num_lit(-0.5), ('num', 255.5), pure_num('negzero'), ('num', 1e10), ('str', 'a'), ('null',),
+                        ('array', []), ('true',), ('error', ('str', 'item')), ('std', 'trace', [('str', 'it'), ('num', 65.0)]), ('num', 0.999)])
+        items.insert(r.randrange(len(items) + 1), bad)
+        if r.random() < 0.4:
+            items.insert(r.randrange(len(items) + 1), r.choice([('error', ('str', 'item2')), ('str', 'b'), ('num', 300.0),
+                                                               ('std', 'trace', [('str', 'it2'), ('num', 66.0)])]))
+    return ('array', items)
+
+
+FMT_INTS = [0, 1, 7, 8, 42, 255, 256, 1000, 65535, -1, -42, 'negzero', 0.5, 1.5, -0.5, 2.75, 1e10, 9007199254740991.0, 9007199254740993.0, 1e20, 1e300, 4294967296.0]
+FMT_STRVALS = ['', 'a', 'ab', 'é', '日本', '😀', 'a%b', 'x y']
+
+
+def fmt_case(r, obj=None):
+    """A format string and its values (an array, an object when the directives carry mapping keys, or a single value),
+    mostly matching, with a share of wrong counts / types, `*` widths and precisions, items that fail or trace when
+    forced (an item that is never consumed must not be forced)."""
+    S = lambda x: ('str', x)
+    obj = (r.random() < 0.2) if obj is None else obj
+    fmt = []
+    vals = []        # array form
+    fields = []      # object form
+    nd = r.choice([0, 1, 1, 1, 1, 2, 2, 2, 3, 3, 4]) if r.random() < 0.9 else 0
+    for k in range(nd):
+        fmt.append(r.choice(['', '', 'a', ' ', 'é=', '%%', '[', 'x: ']))
+        conv = r.choice('dddiuoxXcsssss%ffFeEgG')
+        flags = ''.join(r.sample('#0- +', r.choice([0, 0, 1, 1, 2, 3])))
+        width = r.choice(['', '', '', '1', '3', '6', '12', '*', '*']) if r.random() < 0.97 else r.choice(['4294967296', '99999999999'])
+        prec = r.choice(['', '', '', '.0', '.1', '.3', '.8', '.*']) if r.random() < 0.96 else r.choice(['.', '.99999999999', '.4294967296'])
+        lenmod = r.choice(['', '', '', 'h', 'l', 'L'])
+        key = ''
+        if obj:
+            key = '(%s)' % r.choice(['a', 'b', 'k1', 'é', '', 'missing']) if r.random() < 0.93 else ''
+            if r.random() < 0.85:
+                width = width.replace('*', '4')
+                prec = prec.replace('*', '2')
+        fmt.append('%' + key + flags + width + prec + lenmod + conv)
+        if width == '*':
+            vals.append(pure_num(r.choice([0, 1, 3, 8, 20, -1, 2.5, 4294967296.0])) if r.random() < 0.9 else r.choice([S('3'), ('null',), ('error', S('width'))]))
+        if prec.startswith('.*'):
+            vals.append(pure_num(r.choice([0, 1, 2, 5, 12, -1, 1.5])) if r.random() < 0.9 else r.choice([S('2'), ('true',), ('error', S('prec'))]))
+        if conv == '%':
+            continue
+        x = r.random()
+        if conv in 'diuoxX':
+            v = pure_num(r.choice(FMT_INTS)) if x < 0.88 else r.choice([S('12'), ('null',), ('array', []), ('true',)])
+        elif conv in 'fFeEgG':
+            v = pure_num(r.choice(FMT_INTS + [0, 1, 100, 3])) if x < 0.9 else r.choice([S('1.5'), ('null',)])
+        elif conv == 'c':
+            v = r.choice([S('a'), S('é'), S('😀'), S(''), S('ab'), pure_num(65), pure_num(233), pure_num(0x1F600), pure_num(0xD800), pure_num(-1),
+                          pure_num(65.7), pure_num(1e10), ('null',), ('array', [])])
+        else:
+            v = r.choice([S(r.choice(FMT_STRVALS)), S(r.choice(FMT_STRVALS)), pure_num(r.choice([0, 1, -3, 1e3, 1.5])), ('null',), ('true',),
+                          ('array', [('num', 1.0), S('a')]), ('array', []), ('object', [('fix', 'k', False, 'd', None, ('num', 1.0))]), ('object', []),
+                          ('func', [('x', None)], ('var', 'x')), ('array', [('error', S('inner'))])])
+        y = r.random()
+        if y < 0.05:
+            v = ('error', S('item%d' % k))
+        elif y < 0.12:
+            v = ('std', 'trace', [S('f%d' % k), v])
+        vals.append(v)
+        if obj and key.startswith('(') and key != '(missing)':
+            fields.append((key[1:-1], v))
+    fmt.append(r.choice(['z', ' 100%%', '%', '%(', '%5', '%.', '%y', '%(a', '%-', '%l']) if r.random() < 0.12 else '')
+    z = r.random()
+    if z < 0.08 and vals:
+        vals.pop(r.randrange(len(vals)))
+    elif z < 0.2:
+        vals.insert(r.randrange(len(vals) + 1), r.choice([('error', S('extra')), ('num', 9.0), ('std', 'trace', [S('extra'), ('num', 9.0)])]))
+    if obj:
+        seen = []
+        ms = []
+        for n, v in fields:
+            if n not in seen:
+                seen.append(n)
+                ms.append(('fix', n, False, r.choice('ddh'), None, v))
+        if r.random() < 0.15:
+            ms.append(('assert', r.choice([('true',), ('false',), ('std', 'trace', [S('as'), ('true',)])]), None))
+        vexpr = ('object', ms)
+    elif len(vals) == 1 and r.random() < 0.4 and vals[0][0] not in ('array',):
+        vexpr = vals[0]          # a single value stands for a one-element array
+    else:
+        vexpr = ('array', vals)
+    f = S(''.join(fmt))
+    if r.random() < 0.04:
+        f = r.choice([('num', 1.0), ('null',), ('array', []), ('error', S('fmt'))])
+    return f, vexpr
+
+
+def pure_pool(r, kind):
+    """a literal argument of the kind, boundaries included"""
+    S = lambda x: ('str', x)
+    if kind == 's':
+        return S(r.choice(PURE_STRS))
+    if kind == 'pat':
+        return S(r.choice(PURE_PATS))
+    if kind == 'ws':
+        return S(r.choice(PURE_WS + PURE_STRS[:8]))
+    if kind == 'chr':
+        return S(r.choice(PURE_CHRS))
+    if kind == 'dec':
+        return S(r.choice(PURE_DEC))
+    if kind == 'oct':
+        return S(r.choice(PURE_OCT))
+    if kind == 'hex':
+        return S(r.choice(PURE_HEX))
+    if kind == 'b64':
+        return S(r.choice(PURE_B64))
+    if kind == 'idx':
+        return pure_num(r.choice(PURE_IDX + [0, 1, 2, 3, 1, 2]))
+    if kind == 'maxsplit':
+        return pure_num(r.choice(PURE_MAXSPLIT))
+    if kind == 'cp':
+        return pure_num(r.choice(PURE_CPS))
+    if kind == 'n':
+        return pure_num(r.choice(PURE_NS))
+    if kind == 'b64in':
+        return S(r.choice(PURE_B64_STR)) if r.random() < 0.5 else pure_bytes(r)
+    if kind == 'bytes':
+        return pure_bytes(r)
+    if kind == 'esc':
+        k = r.random()
+        if k < 0.7:
+            return S(r.choice(PURE_STRS + ['\u0000\u001f\u007f\u0080\u009f', "'", '$', '&<>"\'', 'tab\there', 'back\\slash']))
+        return r.choice([('num', 1.0), num_lit(-3), ('null',), ('true',), ('array', [('num', 1.0), S('a')]), ('array', []),
+                         ('object', [('fix', 'a', False, 'd', None, S('<x>'))]), ('object', []), ('num', 1.5),
+                         ('func', [('x', None)], ('var', 'x')), ('array', [('error', S('inner'))])])
+    raise ValueError(kind)
+
+
+PURE_WRONG = [('null',), ('true',), ('num', 1.0), ('str', 'a'), ('array', []), ('array', [('num', 1.0)]), ('object', []),
+              ('func', [('x', None)], ('var', 'x'))]
+
+
+def pure_cases(rng, n, names=None):
+    """Directed programs for the pure builtins: every argument position with right and wrong types, boundary numbers
+    (negative, fractional, -0, 2^32, 2^64, 1e300), non-ASCII strings; arguments that fail lazily (`error`) or emit a trace
+    when forced, so that the forcing order and "which error wins" are observable."""
+    names = sorted(names or PURE_STD)
+    weights = [1 if nm in PURE_LIBM else (40 if nm == 'format' else 6) for nm in names]
+    out = []
+    for _ in range(n):
+        name = rng.choices(names, weights)[0]
+        if name == 'format':
+            f, v = fmt_case(rng)
+            for _ in range(2):
+                if rng.random() < 0.06:
+                    f = ('std', 'trace', [('str', 'fa'), f])
+                if rng.random() < 0.06:
+                    v = ('std', 'trace', [('str', 'va'), v])
+            out.append(('binary', 'rem', f, v) if rng.random() < 0.5 else ('std', 'format', [f, v]))
+            continue
+        kinds = PURE_SIGS[name][0]
+        args = []
+        for i, k in enumerate(kinds):
+            a = pure_pool(rng, k)
+            x = rng.random()
+            if x < 0.10:
+                a = rng.choice(PURE_WRONG)
+            elif x < 0.16:
+                a = ('error', ('str', 'arg%d' % i))
+            if rng.random() < 0.25:
+                a = ('std', 'trace', [('str', 'a%d' % i), a])
+            args.append(a)
+        e = ('std', name, args)
+        y = rng.random()
+        if y < 0.08:
+            # the result used by another pure builtin / operator
+            e = rng.choice([('std', 'length', [e]), ('std', 'type', [e]), ('binary', 'add', ('str', '>'), e), ('std', 'toString', [e]),
+                            ('std', 'stringChars', [e]), ('std', 'asciiUpper', [e]), ('std', 'base64', [e]), ('std', 'decodeUTF8', [e]),
+                            ('std', 'codepoint', [e]), ('std', 'encodeUTF8', [e])])
+        elif y < 0.12:
+            # the call is made through a variable bound to the arguments (thunks shared between two calls)
+            vs = ['v%d' % i for i in range(len(args))]
+            call = ('std', name, [('var', v) for v in vs])
+            e = ('local', [(v, None, a) for v, a in zip(vs, args)], ('array', [call, call]))
+        out.append(e)
+    return out
+
+
+def uses_str_format_op(e):
+    """a `%` whose left operand is a string literal (std.format through the operator)"""
+    if isinstance(e, tuple):
+        if e and e[0] == 'binary' and e[1] == 'rem' and isinstance(e[2], tuple) and e[2][0] == 'str':
+            return True
+        return any(uses_str_format_op(x) for x in e[1:])
+    if isinstance(e, list):
+        return any(uses_str_format_op(x) for x in e)
+    return False
+
+
+def uses_pure_std(e):
+    return bool(std_names(e) & PURE_STD) or uses_str_format_op(e)
+
+
 # builtins added to the evaluator model after std.makeArray (callbacks, element-wise forcing, equality)
 NEW_STD = {'filter', 'foldl', 'foldr', 'flatMap', 'mapWithIndex', 'mapWithKey', 'filterMap', 'join', 'range', 'member', 'count',
            'all', 'any', 'equals', '__compare', 'primitiveEquals', 'assertEqual', 'toString', 'sort', 'set'}
@@ -1252,4 +1560,6 @@ def std_cases(rng, n):
         if k == 18:
             return std('sort', std('map', keyf(), arr('int')), keyf())
         return std('set', arr('int', rng.randrange(2, 10)), keyf())
-    return [case() for _ in range(n)]
+    # the pure builtins (strings, numbers, codecs, std.format / %): at least 600 directed cases
+    pure = pure_cases(rng, max(n // 3, 600))
+    return [case() for _ in range(n - n // 3)] + pure
